@@ -185,7 +185,26 @@ _ADD6 = {
     "C15": " Messages handed to the agent name addresses of the observed universe (ALTERNATE-SERVER next to every named error code, XOR-MAPPED-ADDRESS, RESPONSE-ORIGIN, OTHER-ADDRESS, XOR-PEER-ADDRESS).",
     "C17": " Prefixes are also parsed under a tracing subscriber that formats every event (reach threshold on events received).",
 }
+_ADD7 = {
+    "C01": " Iterator consumers that ask for size_hint between elements; realistic messages (attributes that repeat each other's information, nested messages) and their mutants.",
+    "C02": " Realistic messages and their mutants.",
+    "C03": " One raw value in six carries bytes that look like a sealing attribute or a header, aligned at its end or start.",
+    "C04": " HMAC primitives (MessageIntegrity{,Sha256}::{compute,verify}) against the independent HMACs with keys of 0..200 bytes; passwords of 55..200 bytes, near-miss credentials sharing the first 64 bytes; realistic messages as bases of the tamper enumeration.",
+    "C05": " When the agent's timing disagrees with the schedule, a completion probe drives it far beyond every deadline: every outstanding request is reported timed out / cancelled exactly once and is gone.",
+    "C06": " A lifecycle disagreement while a transaction is due and unserved is reported as the due event never being produced.",
+    "C07": " Remote credentials are passwords of 70 bytes sharing their first 66 bytes.",
+    "C09": " Fingerprint::{compute,new,to_raw,write_into,write_into_unchecked} against the independent CRC; realistic messages (MAPPED-ADDRESS and XOR-MAPPED-ADDRESS naming one address, ICE checks, error responses with their usual attributes, a relayed fingerprinted message) as bases of the full fault enumeration.",
+    "C10": " Realistic messages and their mutants.",
+    "C11": " Every class x short-term and long-term credentials x every sequence up to length 3; operation clone_from (into a longer sealed builder / an empty one) in every sequence up to length 4 and in the random ones.",
+    "C12": " Raw attributes edited through their public fields (header and value disagree): every path still serialises them identically.",
+    "C13": " XorSocketAddr / MappedSocketAddr helper types under any attribute type; addresses whose wire image holds bytes that look like STUN structure at every aligned offset; companion attributes whose types share low bits with 0x0020.",
+    "C15": " Special source addresses (wildcards, port 0, multicast, broadcast, loopback, link-local, IPv4-mapped, all-ones, the agent's own address) through every accept and drop path; 255..70000 accepted messages in a row from one address.",
+    "C17": " Every one of the 16384 message types, header-only and with one attribute, every cut.",
+    "C18": " Most messages handed to send carry an attribute with a registered type code (36 of them) of its usual size.",
+}
 for _k, _t in _ADD.items():
+    PROPS[_k]["rule"] += _t
+for _k, _t in _ADD7.items():
     PROPS[_k]["rule"] += _t
 for _k, _t in _ADD6.items():
     PROPS[_k]["rule"] += _t
